@@ -182,6 +182,51 @@ def generate(rng, tier):
         b, t = g.elems(rng.choice([0, 0, 0, 1]), rng.randrange(1, 7))
         if len(b) <= 800:
             SF(b)
+    # ---------------- AUDIT (deterministic in both tiers)
+    # every comparison operator x data lengths bound-1 / bound / bound+1, bounds 0, 1, 75, 76, 255, 256, 300, 65535, 65536,
+    # minimal and non-minimal encodings of the same payload
+    for bound in [0, 1, 2, 20, 75, 76, 255, 256, 300, 65535, 65536]:
+        for n in sorted({max(0, bound - 1), bound, bound + 1}):
+            encs = []
+            if n == 0:
+                encs = ["4c00", "4d0000", "4e00000000"]
+            else:
+                body = "l:%d:%d" % (n % 97 + 1, n)
+                encs.append(H.min_push(b"\x00" * n)[:-n].hex() + "+" + body)
+                if n <= 75:
+                    encs.append("4c%02x+%s" % (n, body))
+                if n <= 255:
+                    encs.append("4d%s+%s" % (n.to_bytes(2, "little").hex(), body))
+            for e in encs:
+                for op in OPS5:
+                    SM(e, "OP_DATA%s%d" % (op, bound))
+                    if n <= 300:
+                        SM("51+" + e + "+ac", "OP_1 OP_DATA%s%d OP_CHECKSIG" % (op, bound))
+        for op in OPS5:
+            SM("00", "OP_DATA%s%d" % (op, bound))        # OP_0 is an opcode, not a push
+    # every opcode as script element against its own name, its alias, its neighbour, and the wildcards
+    for n_, v in table:
+        if v in H.IFS:
+            continue
+        b = "%02x" % v
+        SM(b, n_); SM(b, "OP_NOP" if n_ != "OP_NOP" else "OP_DUP"); SM(b, "OP_DATA"); SM("51" + b, "OP_1 " + n_); SM(b + "51", n_ + " 1")
+        cases.append(("script.match", [b, th("0" if v == 0 else n_)]))
+        cases.append(("tx.match_outputs", ["1=%s/2=51/3=%s" % (b, b), th(n_), "-", "-", "-"]))
+    # aliases "0".."16" (and their neighbours) as template tokens against OP_0, OP_1NEGATE, OP_1..OP_16, OP_RESERVED and one-byte pushes
+    for k in range(0, 18):
+        for tok in [str(k), "%02d" % k, "+%d" % k, "OP_%d" % k]:
+            TP(tok)
+            for sb in ["00", "4f", "50", "51", "60", "%02x" % (80 + k if 1 <= k <= 16 else 0), "01%02x" % k, "01%02d" % k if k < 100 else "0100"]:
+                SM(sb, tok)
+    # templates built by from_script / from_asm_string for scripts made of OP_0, OP_1NEGATE, OP_1..OP_16, OP_RESERVED
+    for v in [0x00, 0x4f, 0x50] + list(range(0x51, 0x61)) + [0x61]:
+        SF("%02x" % v); SF("%02x%02x" % (v, v)); SF("76%02x87" % v)
+        SM("%02x" % v, "0" if v == 0 else names[v])
+    SF("".join("%02x" % v for v in [0x00, 0x4f] + list(range(0x51, 0x61))))
+    # self-match for every push length band (u8 casts) and the thresholds
+    for n in list(range(1, 80)) + [252, 253, 254, 255, 256, 257, 300, 511, 512, 513]:
+        SF(H.min_push(b"\x00" * n)[:-n].hex() + "+l:%d:%d" % (n % 89 + 1, n))
+
     # ---------------- criteria
     sc = ["51", "52", "76a914+r:11:20+88ac", "76a914+r:22:20+88ac", "0105", "00", "6a+0568656c6c6f", ""]
     tmpls = ["-", th("OP_1"), th("OP_DUP OP_HASH160 OP_PUBKEYHASH OP_EQUALVERIFY OP_CHECKSIG"), th("OP_DATA"), th("OP_DATA=1"), th(""), th("bogus"), th("05"), th("OP_RETURN OP_DATA>=5")]
@@ -207,6 +252,23 @@ def generate(rng, tier):
             cases.append(("tx.match_outputs", [outs, t, optv(mask & 2, e), optv(mask & 4, mn), optv(mask & 8, mx)]))
             ins = "/".join("%s=%s=%s" % (rng.choice([str(v), str(v), str(v), "-"]), rng.choice(scs), rng.choice(["-", "-", "-", "ac", "76a914+r:11:20+88ac", ""])) for v in vals)
             cases.append(("tx.match_inputs", [ins, t, optv(mask & 2, e), optv(mask & 4, mn), optv(mask & 8, mx)]))
+    # AUDIT: type-boundary values for exact / min / max on outputs AND inputs (signed/unsigned, f64, u32 confusions)
+    U64 = 2 ** 64 - 1
+    for V in [0, 1, 2, 255, 256, 65535, 65536, 2 ** 31 - 1, 2 ** 31, 2 ** 32 - 1, 2 ** 32, 2 ** 53 - 1, 2 ** 53, 2 ** 53 + 1, 2 ** 63 - 1, 2 ** 63, 2 ** 63 + 1, U64 - 1, U64]:
+        vals = sorted({max(0, V - 1), V, min(U64, V + 1), 0, 2 ** 63, U64})
+        outs = "/".join("%d=51" % v for v in vals)
+        ins = "/".join("%d=51=-" % v for v in vals) + "/-=51=-"
+        for (e, mn, mx) in [(V, None, None), (None, V, None), (None, None, V), (None, V, V), (V, V, V), (None, max(0, V - 1), min(U64, V + 1)), (None, V, U64), (None, 0, V)]:
+            a = [str(x) if x is not None else "-" for x in (e, mn, mx)]
+            cases.append(("tx.match_outputs", [outs, "-"] + a)); cases.append(("tx.match_inputs", [ins, "-"] + a))
+            cases.append(("tx.match_outputs", [outs, th("OP_1")] + a)); cases.append(("tx.match_inputs", [ins, th("OP_1")] + a))
+    # single-result form: first match at every position, and none
+    for pos in range(0, 5):
+        outs = "/".join("%d=%s" % (7 if i >= pos else 1, "51" if i >= pos else "52") for i in range(5))
+        ins = "/".join("%s=%s=-" % ("7" if i >= pos else "-", "51") for i in range(5))
+        cases.append(("tx.match_outputs", [outs, th("OP_1"), "7", "-", "-"])); cases.append(("tx.match_outputs", [outs, "-", "-", "7", "7"]))
+        cases.append(("tx.match_inputs", [ins, th("OP_1"), "-", "7", "-"])); cases.append(("tx.match_inputs", [ins, "-", "7", "-", "-"]))
+    cases.append(("tx.match_outputs", ["1=52/1=52", th("OP_1"), "-", "-", "-"])); cases.append(("tx.match_inputs", ["1=52=-/1=52=-", th("OP_1"), "-", "-", "-"]))
     # fixed boundary probes: equality and off-by-one on every bound
     for v in [4, 5, 6]:
         for (e, mn, mx) in [("5", "-", "-"), ("-", "5", "-"), ("-", "-", "5"), ("-", "5", "5"), ("-", "6", "4"), ("5", "5", "5"), ("5", "6", "-"), ("5", "-", "4")]:
